@@ -542,9 +542,11 @@ func (m *lifecycleReconcilerStorageMiddleware) expireObjectIfDue(ctx context.Con
 			continue
 		}
 		// Guard against the object having been replaced between listing and
-		// deletion: only delete the exact version that was evaluated.
+		// deletion: only delete the exact version that was evaluated. The ETag
+		// alone does not tell a re-upload of identical content apart.
 		_, err := m.Next.DeleteObject(storage.WithNotificationEventOverride(ctx, "s3:LifecycleExpiration:Delete"), bucketName, object.Key, &storage.DeleteObjectOptions{
-			IfMatchETag: ptrutils.ToPtr(object.ETag),
+			IfMatchETag:             ptrutils.ToPtr(object.ETag),
+			IfMatchLastModifiedTime: ptrutils.ToPtr(object.LastModified),
 		})
 		if err == storage.ErrPreconditionFailed || err == storage.ErrNoSuchKey || err == storage.ErrNoSuchBucket {
 			return
@@ -639,9 +641,11 @@ func (m *lifecycleReconcilerStorageMiddleware) transitionObjectIfDue(ctx context
 	}
 
 	// Guard against the object having been replaced between listing and
-	// transition: only transition the exact version that was evaluated.
+	// transition: only transition the exact version that was evaluated. The
+	// ETag alone does not tell a re-upload of identical content apart.
 	err := m.Next.TransitionObjectStorageClass(storage.WithNotificationEventOverride(ctx, "s3:LifecycleTransition"), bucketName, object.Key, chosenTarget, &storage.TransitionObjectStorageClassOptions{
-		IfMatchETag: ptrutils.ToPtr(object.ETag),
+		IfMatchETag:             ptrutils.ToPtr(object.ETag),
+		IfMatchLastModifiedTime: ptrutils.ToPtr(object.LastModified),
 	})
 	if err == storage.ErrPreconditionFailed || err == storage.ErrNoSuchKey || err == storage.ErrNoSuchBucket {
 		return
